@@ -119,6 +119,20 @@ MUTANTS = [
     ("cli-prints-budget-as-cycles", B + "runner/mod.rs", "        hl_if_not(&res.emulated_cycles, &res.config.max_cycles),", "        hl_if_not(&res.config.max_cycles, &res.config.max_cycles),", ["C12"]),
     ("cli-ai2-goes-to-ai1", B + "args.rs", "            analog_input2: init.ai2,", "            analog_input2: init.ai1,", ["C12"]),
     ("cli-verify-ff-parsed-as-fe", B + "args.rs", "        if let Some(output_ff) = args.ff {\n            expectations.expect_output_ff(output_ff);", "        if let Some(output_ff) = args.ff {\n            expectations.expect_output_fe(output_ff);", ["C12"]),
+    # ---- TUI (C17)
+    ("tui-left-underflow", B + "tui/input/mod.rs", "            (_, Left) => {\n                if self.input_index > 0 {", "            (_, Left) => {\n                if self.input_index > 0 || self.input.len() == 7 {", ["C17"]),
+    ("tui-delete-off-by-one", B + "tui/input/mod.rs", "            (_, Delete) => {\n                if self.input_index < self.input.len() {", "            (_, Delete) => {\n                if self.input_index <= self.input.len() && !self.input.is_empty() {", ["C17"]),
+    ("tui-completion-index-unbounded", B + "tui/input/mod.rs", "                *idx = (*idx + 1) % comps.len();", "                *idx = *idx + 1;", ["C17"]),
+    ("tui-key-not-swallowed-by-notification", B + "tui/mod.rs", "                self.notification_state.clear();\n                return false;", "                self.notification_state.clear();", ["C17"]),
+    ("tui-fd-fe-permuted", B + "tui/mod.rs", "                Command::SetInputReg(InputRegister::Fd, val) => self.machine.set_input_fd(val),\n                Command::SetInputReg(InputRegister::Fe, val) => self.machine.set_input_fe(val),", "                Command::SetInputReg(InputRegister::Fd, val) => self.machine.set_input_fe(val),\n                Command::SetInputReg(InputRegister::Fe, val) => self.machine.set_input_fd(val),", ["C17"]),
+    ("tui-unset-j2-sets", B + "tui/input/parser.rs", "    let unset_j2 = value(Command::SetJ2(false), preceded(unset_ws, tag_no_case(\"J2\")));", "    let unset_j2 = value(Command::SetJ2(true), preceded(unset_ws, tag_no_case(\"J2\")));", ["C17"]),
+    ("tui-ctrl-r-master-reset", B + "tui/mod.rs", "                    Char('r') => {\n                        self.machine.cpu_reset();", "                    Char('r') => {\n                        self.machine.master_reset();", ["C17"]),
+    ("tui-next-one-more", B + "tui/mod.rs", "                    for _ in 0..cycles {\n                        self.machine.trigger_key_clock()", "                    for _ in 0..=cycles {\n                        self.machine.trigger_key_clock()", ["C17"]),
+    ("tui-trailing-garbage-again", B + "tui/input/parser.rs", "    all_consuming(complete(delimited(ws_opt, cmd, ws_opt)))(input)", "    complete(delimited(ws_opt, cmd, ws_opt))(input)", ["C17"]),
+    # (computing only `start` from the byte length is cosmetic - wrong part of the line shown, no panic - and not a C17 violation)
+    ("tui-history-down-off-by-one", B + "tui/input/mod.rs", "                Some(index) if index < self.history.len() - 1 => {", "                Some(index) if index < self.history.len() => {", ["C17"]),
+    ("tui-small-terminal-guard-off", B + "tui/interface.rs", "pub const MINIMUM_ALLOWED_WIDTH: u16 = 76;", "pub const MINIMUM_ALLOWED_WIDTH: u16 = 36;", ["C17"]),
+    ("tui-invalid-line-silently-ignored", B + "tui/mod.rs", "            self.notification_state.current = self\n                .input_field\n                .last()\n                .map(|text| format!(\"Invalid input:\\n> {}\", text));", "            self.notification_state.current = self\n                .input_field\n                .last()\n                .filter(|t| !t.starts_with(\"set \"))\n                .map(|text| format!(\"Invalid input:\\n> {}\", text));", ["C17"]),
     # ---- cycles (C15)
     ("cyc-wait-also-for-io", L + "machine/raw/mod.rs", "            if *register_out_a <= 0xEF {\n                trace!(\"Generating artificial wait signal\");\n                machine.pending_wait_for_memory = Some(MemoryWait);\n            }\n        } else {\n            machine.last_bus_read = 0;", "            if *register_out_a <= 0xFB {\n                trace!(\"Generating artificial wait signal\");\n                machine.pending_wait_for_memory = Some(MemoryWait);\n            }\n        } else {\n            machine.last_bus_read = 0;", ["C15"]),
     ("cyc-no-wait-reading-0x80", L + "machine/raw/mod.rs", "            if *register_out_a <= 0xEF {\n                trace!(\"Generating artificial wait signal\");\n                machine.pending_wait_for_memory = Some(MemoryWait);\n            }\n        } else {\n            machine.last_bus_read = 0;", "            if *register_out_a <= 0xEF && *register_out_a != 0x80 {\n                trace!(\"Generating artificial wait signal\");\n                machine.pending_wait_for_memory = Some(MemoryWait);\n            }\n        } else {\n            machine.last_bus_read = 0;", ["C15"]),
